@@ -56,6 +56,8 @@ func (in *RegInstance) Apply(op string) (string, string) {
 	switch f[0] {
 	case "regnode":
 		viol = r.RegisterNode(dash(arg(1)), arg(2))
+	case "regnodesame":
+		viol = r.RegisterNodeSame(dash(arg(1)), arg(2))
 	case "regpipe":
 		var ok bool
 		ok, viol = r.RegisterPipeline(dash(arg(1)), dash(arg(2)), splitIDs(arg(3)), arg(4))
